@@ -665,7 +665,7 @@ class SimNet:
                 overflow = True
             rec = {"tag": tag, "payload": payload, "port": port, "fd": target.fd if target else None,
                    "owner": target.owner if target else None, "owner_id": target.owner_id if target else None,
-                   "mono_us": sim.mono_us, "seq": sim.seq, "overflow": overflow,
+                   "mono_us": sim.mono_us, "seq": sim.seq, "overflow": overflow, "n_holders": len(holders),
                    "order": len(self.arrival_order)}
             self.arrivals.setdefault(port, []).append(rec)
             self.arrival_order.append(rec)
